@@ -74,6 +74,56 @@ def sweep(ck, datasets, options, seeds, label, max_traces=4000, num_iters=3):
     return spec_traces
 
 
+def cli_runs(ck, thorough):
+    """The same through the real command line (click parsing with its clamped ranges, load_data, run(), the trace file)."""
+    import gzip
+    import math
+    import os
+    import pickle
+    import shutil
+    from click.testing import CliRunner
+    from phyclone.cli import main
+    from phyclone.tree import Tree
+    from .. import absstate
+    from . import c18
+
+    d = env.scratch("c19_cli")
+    inp = os.path.join(d, "in.tsv")
+    c18.write_input(inp, 0)
+    combos = [
+        ["--num-particles", "0", "--resample-threshold", "1.7", "--outlier-prob", "1.5", "--burnin", "0", "--thin", "0", "-n", "0", "-s", "2", "--grid-size", "5"],
+        ["--num-particles", "1", "--resample-threshold", "0", "--outlier-prob", "0.0001", "-n", "4", "-s", "0.5", "--proposal", "bootstrap", "--no-concentration-update", "--grid-size", "11"],
+        ["--num-particles", "3", "--resample-threshold", "1", "--outlier-prob", "0.5", "-n", "4", "--thin", "2", "-s", "1", "--proposal", "fully-adapted", "--density", "binomial", "--grid-size", "11"],
+        ["--num-particles", "2", "-n", "3", "--max-time", "0", "--burnin", "2", "--proposal", "semi-adapted", "--precision", "1.0", "--grid-size", "12"],
+    ]
+    if thorough:
+        combos += [["--num-particles", str(p_), "--resample-threshold", str(t_), "--outlier-prob", str(o_), "-n", "3", "--proposal", pr, "--grid-size", "11", "-s", str(sb)]
+                   for p_ in (1, 2) for t_ in (0, 1) for o_ in (0, 1) for pr in ("bootstrap", "fully-adapted") for sb in (0, 1)]
+    runner = CliRunner()
+    for i, extra in enumerate(combos):
+        out = os.path.join(d, "out_%d.pkl.gz" % i)
+        args = ["run", "-i", inp, "-o", out, "--seed", str(100 + i), "--num-chains", "1", "--print-freq", "100000"] + extra
+        res = runner.invoke(main, args)
+        ck.evaluations += 1
+        rep = {"argv": args}
+        if res.exit_code != 0 or res.exception is not None:
+            ck.violation("C19|cli|exception:%s" % type(res.exception).__name__, "`phyclone %s` failed: %r" % (" ".join(args[6:]), res.exception), rep)
+            continue
+        try:
+            with gzip.GzipFile(out, "rb") as fh:
+                results = pickle.load(fh)
+            n = len(results[0]["data"])
+            for j, e in enumerate(results[0]["trace"]):
+                key, _ = absstate.project(Tree.from_dict(e["tree"]), full=True)
+                if absstate.data_ids(key) != set(range(n)) or not math.isfinite(float(e["log_p_one"])):
+                    ck.violation("C19|cli|entry", "entry %d of `phyclone %s` is incomplete or has a non-finite log_p_one" % (j, " ".join(args[6:])), rep)
+        except absstate.Inconsistent as ex:
+            ck.violation("C19|cli|malformed", "trace entry of `phyclone %s` is malformed: %s" % (" ".join(args[6:]), ex), rep)
+        ck.nontrivial("cli:%d" % i)
+    shutil.rmtree(d, ignore_errors=True)
+    ck.extra["cli_invocations"] = len(combos)
+
+
 def run(corrupt=None):
     ck = Check("C19")
     env.use_repo()
@@ -104,6 +154,7 @@ def run(corrupt=None):
     rnd2 = _r.Random(ck.seed + 1)
     long_opts = [o for o in rnd2.sample(options, 2500) if o["max_time"] != 0][:(900 if thorough else 320)]
     spec_traces += sweep(ck, [(5, 1), (6, 2)] if thorough else [(5, 1)], long_opts, seeds, "long_runs_5_points", max_traces=(600 if thorough else 200), num_iters=15)
+    cli_runs(ck, thorough)
     if corrupt == "trace" and spec_traces:
         ev = spec_traces[0]["events"]
         spec_traces[0]["events"] = [e for e in ev if e["name"] != "clear_caches"]
